@@ -78,6 +78,19 @@ for ci in range(n_runs):
     nw = rng.choice([1, 2, 3, 3, 4, 5]) if tier == "quick" else rng.choice([1, 2, 3, 4, 5, 6])
     labels = list(range(nw)) if rng.random() < 0.6 else ["a", "b", 7, "q", "z", 11][:nw]
     ops = rand_clifford(labels)
+    ref_ops = None
+    if rng.random() < 0.3:
+        # initial state preparation on a random subset of the wires in random order (reference: the equivalent X gates)
+        pw = rng.sample(labels, rng.randint(1, nw))
+        bits = [rng.randint(0, 1) for _ in pw]
+        xs = [qp.PauliX(w) for w, b in zip(pw, bits) if b]
+        if rng.random() < 0.5:
+            prep = qp.BasisState(np.array(bits), wires=pw)
+        else:
+            vec = np.zeros(2 ** len(pw)); vec[int("".join(map(str, bits)), 2)] = 1.0
+            prep = qp.StatePrep(vec, wires=pw)
+        ref_ops = xs + ops
+        ops = [prep] + ops
     ms, md = [], []
     for _ in range(rng.randint(1, 3)):
         r = rng.random()
@@ -107,7 +120,10 @@ for ci in range(n_runs):
         if True:
             # known finding (kept separately): the tableau=False state vector follows the circuit's wire order of first
             # appearance; make that order equal to the device order so that only the simulation itself is compared
-            ops = [qp.Identity(w) for w in labels] + ops
+            if ref_ops is not None:       # keep the preparation first
+                ops = [ops[0]] + [qp.Identity(w) for w in labels] + ops[1:]
+            else:
+                ops = [qp.Identity(w) for w in labels] + ops
             ms, md = [qp.state()], [{"kind": "state"}]
         else:
             keep = [(m, d) for m, d in zip(ms, md) if d["kind"] != "state"] or [(qp.probs(wires=labels), {"kind": "probs", "wires": labels})]
@@ -115,7 +131,7 @@ for ci in range(n_runs):
     run = {"labels": labels, "dev_wires": labels, "ops": [repr(o) for o in ops], "meas": md, "status": "ok", "n": nw}
     runs.append(run)
     try:
-        run["circuit"] = exact_circuit_gallina(ops, labels)
+        run["circuit"] = exact_circuit_gallina(ops if ref_ops is None else ref_ops, labels)
         dev = qp.device("default.clifford", wires=labels, tableau=not any(d["kind"] == "state" for d in md))
         res = qp.execute([qp.tape.QuantumScript(ops, ms)], dev)[0]
         res = res if isinstance(res, tuple) else (res,)
